@@ -220,6 +220,9 @@ def _elems(G, rng, mode):
             b = G.ident()
     elif mode == 'equal':
         b = G.dec(G.enc(a))
+        if isinstance(G, c27.EcG) and G.sys not in ('ea', 'wa'):
+            # the same point in another (rescaled) projective representation
+            b = G.from_affine(G.to_affine(G.enc(a)), rng)
     elif mode == 'opposite':
         b = ~a
     return [G.enc(a), G.enc(b)]
@@ -292,7 +295,7 @@ def make_tasks(ctx):
         for m in ms:
             for rep in range(reps):
                 modes = ['generic'] if 'generic' in restr else ['generic', 'ident', 'equal', 'opposite']
-                mode = modes[rep % len(modes)] if cost == 'cheap' else rng.choice(modes)
+                mode = modes[rep % len(modes)] if cost == 'cheap' else modes[(rep + 2 * (m > 1)) % len(modes)]
                 if isinstance(G, c27.SymG) and exp_order:
                     # exponent arithmetic needs a base of prime order r = exp_order: an r-cycle
                     base = _cycle(G.n, exp_order)
